@@ -30,6 +30,8 @@ PROP = {
             "quick": {"gen": [(20000, 30)], "enum": [(4, 0), (3, 1), (3, 2), (4, 3)]},
             "thorough": {"gen": [(60000, 40)], "enum": [(5, 0), (4, 1), (5, 3)]},
         }],
+        # sessions with ValidateUTF8(true) (outside the model): the wire-level clauses of the closing handshake
+        "direct": [{"component": "wsstream", "timeout": 600}],
         "rule": "scripts = a client Stream attached to a scripted transport (max message size from {0,1,2,8,16,64,125,126,130,300}) "
                 "followed by up to 30-40 events: peer frames (data, fragments, ping, pong, valid/invalid close, every framing-violation "
                 "class, frames over the maximum), transport EOF/error, and local calls NextFrame/NextMessage/Write/WriteFrame/Flush/Close, "
